@@ -749,3 +749,121 @@ func init() {
 		c.Dom("branches-verified", f, adds, "store addition", GErrChecked("update.Validate()", c.Calls(f, "(*beacon/types.LightClientUpdate).Validate")))
 	})
 }
+
+func init() {
+	extendProp("C25", "The key-value deletions of a freeze cycle do not start where the freezer happens to end: in chainFreezer.freeze no deletion loop (DeleteBlock…) takes its lower bound from the freezer head read in that same cycle — copying and syncing a range and deleting it are separate steps, so after a stop in between the next cycle would begin behind the range that was never deleted.", nil, func(c *Ctx) {
+		c.Rule("EFFECT/C25.resume")
+		rdb := "core/rawdb"
+		f := c.Fn(rdb, "(*chainFreezer).freeze")
+		if f == nil {
+			return
+		}
+		c.Funcs[f] = true
+		fromAncients := func(v ssa.Value) bool {
+			for i := 0; i < 6; i++ {
+				v = stripConv(v)
+				switch x := v.(type) {
+				case *ssa.Extract:
+					if call, ok := x.Tuple.(*ssa.Call); ok {
+						if !strings.HasSuffix(calleeName(&call.Call), ".Ancients") {
+							return false
+						}
+						// the read taken before this cycle's copy step
+						for _, fr := range c.Calls(f, "(*"+rdb+".chainFreezer).freezeRange") {
+							if instrDominates(call, fr.Instr) {
+								return true
+							}
+						}
+					}
+					return false
+				case *ssa.Phi:
+					if len(x.Edges) == 1 {
+						v = x.Edges[0]
+						continue
+					}
+					return false
+				default:
+					return false
+				}
+			}
+			return false
+		}
+		n := 0
+		seen := map[*ssa.BasicBlock]bool{}
+		for _, s := range cat(c.Calls(f, rdb+".DeleteBlock"), c.Calls(f, rdb+".DeleteBlockWithoutNumber")) {
+			h := innermostLoopHeader(f, s.Instr.Block())
+			for h != nil {
+				if !seen[h] {
+					seen[h] = true
+					in := loopBlocksOf(h)
+					for _, instr := range h.Instrs {
+						phi, ok := instr.(*ssa.Phi)
+						if !ok {
+							continue
+						}
+						for i, e := range phi.Edges {
+							if in[h.Preds[i]] {
+								continue
+							}
+							if fromAncients(e) {
+								n++
+								c.Bad("lower-bound/(*chainFreezer).freeze", s.Pos(), "the deletion loop starts at the freezer head read at the beginning of the same cycle: a range that was copied and synced before a stop is already below that head at the next start and its key-value data (side chains, canonical copies) is never deleted")
+							}
+						}
+					}
+				}
+				// enclosing loop
+				var outer *ssa.BasicBlock
+				for _, b := range f.Blocks {
+					if b != h && b.Dominates(h) && loopBlocksOf(b)[h] && len(loopBlocksOf(b)) > 1 {
+						if outer == nil || outer.Dominates(b) {
+							outer = b
+						}
+					}
+				}
+				if outer == nil || seen[outer] {
+					break
+				}
+				h = outer
+			}
+		}
+		if n == 0 {
+			c.OK("lower-bound/(*chainFreezer).freeze", f.Pos(), "no deletion loop is bounded below by the freezer head of the same cycle")
+		}
+	})
+}
+
+func init() {
+	extendProp("C34", "A stateless run whose state reads failed does not report roots: every successful return of ExecuteStateless lies behind the StateDB's memoised database error having been read and found nil (a node missing from the witness makes reads return zero values, not errors).", nil, func(c *Ctx) {
+		c.Rule("DOM/C34.dberror")
+		f := c.Fn("core", "ExecuteStateless")
+		if f == nil {
+			return
+		}
+		c.Dom("db-error-tested", f, c.SuccessReturns(f), "roots returned", GErrChecked("db.Error()", c.Calls(f, "(*core/state.StateDB).Error")))
+	})
+}
+
+func init() {
+	extendProp("C10", "The in-place compact encoder is total: in hexToCompactInPlace the store of the flag byte into hex[0] lies behind the input having been found non-empty, so the empty path is encoded (to 0x00, like hexToCompact) instead of panicking.", nil, func(c *Ctx) {
+		c.Rule("PANIC/C10.inplaceempty")
+		f := c.Fn("trie", "hexToCompactInPlace")
+		if f == nil {
+			return
+		}
+		hex := Param("hex")
+		var stores []Site
+		eachInstr(f, func(in ssa.Instruction) {
+			st, ok := in.(*ssa.Store)
+			if !ok {
+				return
+			}
+			ia, ok := st.Addr.(*ssa.IndexAddr)
+			if ok && hex(ia.X) && ConstInt(0)(ia.Index) {
+				stores = append(stores, Site{f, in})
+			}
+		})
+		c.Expect(1, len(stores), "flag byte store in hexToCompactInPlace")
+		c.Dom("non-empty", f, stores, "hex[0] = firstByte", GCond("len(hex) != 0", f, Cmp(Len(hex), token.NEQ, ConstInt(0))), GCond("len(hex) > 0", f, Cmp(Len(hex), token.GTR, ConstInt(0))))
+	})
+}
